@@ -14,6 +14,11 @@ pub enum Profile {
     #[px(profile = "prod")]
     Production,
     LocalDevelopment, // "local_development"
+    // custom names are used verbatim, whatever their spelling (they double as file names)
+    #[px(profile = "staging2")]
+    Staging,
+    #[px(profile = "prodEU")]
+    ProdEu,
 }
 
 #[derive(serde::Deserialize)]
@@ -196,6 +201,8 @@ fn handle(root: &Path, req: &Json) -> Json {
             "dev" => loader = loader.profile(Profile::Development),
             "prod" => loader = loader.profile(Profile::Production),
             "local_development" => loader = loader.profile(Profile::LocalDevelopment),
+            "staging2" => loader = loader.profile(Profile::Staging),
+            "prodEU" => loader = loader.profile(Profile::ProdEu),
             _ => return bad(),
         },
         _ => return bad(),
